@@ -608,7 +608,7 @@ pub fn main(args: &Args) {
         std::process::exit(if ok { 0 } else { 1 });
     }
     let mut rep = Report::new("C04", args.tier, "model_checking");
-    let depth = args.tier.pick(8, 10);
+    let depth = args.tier.pick(8, 9);
     let (t, extra) = explore("C04", depth, false, false);
     rep.absorb(t);
     for (k, v) in extra.as_object().unwrap() {
